@@ -204,3 +204,51 @@ pub fn publish_state_dump(dump: ConfigState) {
     *p.state_dump.lock().unwrap_or_else(|e| e.into_inner()) = Some(dump);
     p.dump_requested.store(false, Ordering::SeqCst);
 }
+
+/// Account one socket operation of the calling worker: `kind` is the socket
+/// flavour (`tcp` = plain mio stream, `session_tcp` = plain frontend,
+/// `rustls` = TLS frontend), `op` is `read`, `write` or `writev`.
+pub fn io(kind: &str, op: &str, requested: usize, done: usize, result: crate::socket::SocketResult) {
+    use crate::socket::SocketResult;
+    let p = current();
+    let mut counters = p.counters.lock().unwrap_or_else(|e| e.into_inner());
+    let mut bump = |suffix: &str, n: u64| {
+        *counters
+            .entry(format!("io.{kind}.{op}.{suffix}"))
+            .or_insert(0) += n;
+    };
+    bump("calls", 1);
+    bump("bytes", done as u64);
+    if done > 0 && done < requested {
+        bump("partial", 1);
+    }
+    match result {
+        SocketResult::WouldBlock => bump("wouldblock", 1),
+        SocketResult::Closed => bump("closed", 1),
+        SocketResult::Error => bump("error", 1),
+        SocketResult::Continue => {}
+    }
+}
+
+/// Apply the harness-set `<side>_sndbuf` / `<side>_rcvbuf` knobs (side is
+/// `front` or `back`) to a freshly accepted / connected socket. No-op when
+/// the knobs are unset. Shrinking socket buffers is a legal environment (it
+/// is what `net.ipv4.tcp_wmem` does); it makes real back-pressure appear
+/// after a few KB.
+pub fn tune_socket<S: std::os::fd::AsRawFd>(socket: &S, side: &str) {
+    let p = current();
+    for (suffix, opt) in [("sndbuf", libc::SO_SNDBUF), ("rcvbuf", libc::SO_RCVBUF)] {
+        if let Some(v) = p.knob(&format!("{side}_{suffix}")) {
+            let v = v as libc::c_int;
+            unsafe {
+                libc::setsockopt(
+                    socket.as_raw_fd(),
+                    libc::SOL_SOCKET,
+                    opt,
+                    &v as *const libc::c_int as *const libc::c_void,
+                    std::mem::size_of::<libc::c_int>() as libc::socklen_t,
+                );
+            }
+        }
+    }
+}
